@@ -563,6 +563,70 @@ def r7_reader(prog, rep: Report, sf: StorageFacts):
               scenario="the reader seeks with the writer id as offset or reads another writer's file: another id's text is returned")
 
 
+class _OpenModes(Client):
+    """state = was the writer already registered (process identifier known) when open() was entered?: None | True | False"""
+
+    def __init__(self, sf: StorageFacts, idf: str):
+        self.sf, self.idf = sf, idf
+        self.opens: List[Tuple[int, str, object]] = []
+
+    def should_inline(self, func, call, ctx):
+        return func.cls is self.sf.cls
+
+    def refine(self, test, state, ctx):
+        if isinstance(test, ast.Compare) and len(test.ops) == 1 and dotted(test.left) == (ctx.func.self_name, self.idf) \
+                and const_value(test.comparators[0], 0) is None:
+            if isinstance(test.ops[0], ast.Is):
+                return (False,), (True,)
+            if isinstance(test.ops[0], ast.IsNot):
+                return (True,), (False,)
+        return (state,), (state,)
+
+    def event(self, kind, node, state, ctx):
+        if kind == "call" and isinstance(node, ast.Call) and self.sf.P.external_name(ctx.func.mod, node.func) == "open":
+            from ..util import open_mode
+            self.opens.append((node.lineno, open_mode(node), state))
+        return (state,)
+
+
+def r8_reopen_appends(prog, rep: Report, sf: StorageFacts):
+    rep.rule("C14.R8", "a writer that re-opens its file appends: in open(), every open() call reached while the writer is already "
+             "registered (its process identifier is known) uses mode 'a'; only the first registration may create the file", floor=1)
+    f = prog.method(sf.cls, "open")
+    rep.fn(f)
+    # the identifier field: the non-shared field compared with None in open()
+    idf = None
+    for n in walk_own(f.node):
+        if isinstance(n, ast.Compare) and const_value(n.comparators[0], 0) is None:
+            d = dotted(n.left)
+            if d and len(d) == 2 and d[0] == f.self_name and d[1] != sf.wfile and "file" not in d[1].lower():
+                idf = d[1]
+    if idf is None:
+        for k_ in sf.cls.methods.values():
+            for n in walk_own(k_.node):
+                if isinstance(n, ast.Compare) and const_value(n.comparators[0], 0) is None:
+                    d = dotted(n.left)
+                    if d and len(d) == 2 and d[0] == k_.self_name and "identifier" in d[1]:
+                        idf = d[1]
+    if idf is None:
+        rep.unrec("C14.R8", f, "reopen-appends", "the writer's identifier field is not recognisable in open()")
+        return
+    client = _OpenModes(sf, idf)
+    it = Interp(prog, client)
+    it.run(f, {None}, sf.cls)
+    if not client.opens:
+        rep.unrec("C14.R8", f, "reopen-appends", "open() opens no file")
+        return
+    bad = [(ln, m) for ln, m, st in client.opens if st is not False and (m is None or "a" not in m)]
+    first = [(ln, m) for ln, m, st in client.opens if st is False]
+    rep.check("C14.R8", f, "reopen-appends", not bad and bool(first),
+              f"first registration creates the file ({[m for _, m in first]}), a registered writer re-opens it in append mode",
+              f"an open() call reachable for an already registered writer uses mode {[m for _, m in bad]}: re-opening truncates the "
+              f"writer's file while the index still points into it",
+              scenario="store ids 0-2, close(), open(), store ids 3-4: id 0 reads 'three', iteration is wrong",
+              line=bad[0][0] if bad else None)
+
+
 def run(prog: Program, rep: Report):
     sf = StorageFacts(prog)
     r1_lock(prog, rep, sf)
@@ -570,3 +634,4 @@ def run(prog: Program, rep: Report):
     r4_iter(prog, rep, sf)
     r5_reset(prog, rep, sf)
     r7_reader(prog, rep, sf)
+    r8_reopen_appends(prog, rep, sf)
